@@ -86,6 +86,7 @@ func (m *MultiEpoch) RemoveEpochByConfigFilepath(configFilepath string) (uint64,
 	for epoch, ep := range m.epochs {
 		if ep.config.ConfigFilepath() == configFilepath {
 			ep.Close()
+			dropCachedLookupsOf(ep)
 			delete(m.epochs, epoch)
 			return epoch, nil
 		}
@@ -109,9 +110,22 @@ func (m *MultiEpoch) ReplaceOrAddEpoch(epoch uint64, ep *Epoch) error {
 	// if the epoch already exists, close it
 	if oldEp, ok := m.epochs[epoch]; ok {
 		oldEp.Close()
+		dropCachedLookupsOf(oldEp)
 	}
 	m.epochs[epoch] = ep
 	return nil
+}
+
+// dropCachedLookupsOf empties the lookup cache the epoch used. Its entries are keyed by CID
+// and by slot only: after the epoch has been replaced (or removed and loaded again) from a
+// CAR with another layout they would keep answering with the old CAR's offsets.
+func dropCachedLookupsOf(ep *Epoch) {
+	if ep == nil || ep.GetCache() == nil {
+		return
+	}
+	if err := ep.GetCache().Reset(); err != nil {
+		klog.Errorf("failed to reset the cache after epoch %d was unloaded: %v", ep.Epoch(), err)
+	}
 }
 
 func (m *MultiEpoch) HasEpochWithSameHashAsFile(filepath string) bool {
